@@ -45,10 +45,10 @@ class Ctx:
     def assume(self, cond):
         self.path.assume(zbool(cond))
 
-    def oblige(self, label, goal, kind="post", note=""):
+    def oblige(self, label, goal, kind="post", note="", drop=()):
         name = f"{self.contract.name}/{kind}:{label}"
         ob_goal = zbool(goal)
-        self.path.oblige(name, ob_goal, kind=kind, where=self.I.where(), note=note)
+        self.path.oblige(name, ob_goal, kind=kind, where=self.I.where(), note=note, drop=drop)
         self.path.explorer.obligations[-1].env = self.env
         self.path.explorer.obligations[-1].case = self.case
 
